@@ -507,7 +507,24 @@ pub fn inputs_c12(r: &mut Rng, n: usize, _tier: &str, out: &mut dyn Write) {
                 _ => (r.range_i64(-36525, 36525) as i128) * DAY,
             };
             let eb = ea.to_time_scale(s2ts(sb)) + Duration::from_total_nanoseconds(gap);
-            writeln!(out, "ecmp_dyn {} {}", e2s(ea), e2s(eb)).unwrap();
+            match r.below(4) {
+                0 | 1 => writeln!(out, "ecmp_dyn {} {}", e2s(ea), e2s(eb)).unwrap(),
+                2 => writeln!(out, "eminmax_dyn {} {}", e2s(ea), e2s(eb)).unwrap(),
+                _ => {
+                    // a third epoch in any scale, placed relative to the first one
+                    let sc = *r.pick(&ALL9);
+                    let g2 = (if r.chance(1, 2) { 1 } else { -1 }) * match r.below(3) {
+                        0 => 170 + r.below(2000) as i128,
+                        1 => r.below(DAY as u64) as i128 + 170,
+                        _ => (r.range_i64(0, 36525) as i128) * DAY + 170,
+                    };
+                    let ec = ea.to_time_scale(s2ts(sc)) + Duration::from_total_nanoseconds(g2);
+                    let mut v = [ea, eb, ec];
+                    let i = r.below(3) as usize;
+                    v.swap(0, i);
+                    writeln!(out, "esort_dyn {} {} {}", e2s(v[0]), e2s(v[1]), e2s(v[2])).unwrap()
+                }
+            }
             continue;
         }
         let a = *r.pick(&NONDYN);
@@ -588,6 +605,32 @@ pub fn inputs_c15(r: &mut Rng, n: usize, tier: &str, out: &mut dyn Write) {
             let span = count * step + *r.pick(&[0i128, 1, -1]);
             writeln!(out, "series_long {} {}:{} {} {} {}", r.below(2), dstr(start), a, dstr(span), b, dstr(step)).unwrap();
         }
+    }
+    for _ in 0..(n / 200).max(2) {
+        // start and end in different scales, one of them ET or TDB: the span is the library's own difference
+        // (end - start: the start re-expressed in the end's scale), which the executor reports next to the items
+        const ALL9: [&str; 9] = ["TAI", "TT", "UTC", "GPST", "GST", "BDT", "QZSST", "ET", "TDB"];
+        let dy = *r.pick(&["ET", "TDB"]);
+        let other = loop { let o = *r.pick(&ALL9); if o != dy { break o; } };
+        let (a, b) = if r.chance(1, 2) { (dy, other) } else { (other, dy) };
+        let d = r.range_i64(-3_652_500, 3_652_500) as i128;
+        let start = d * DAY + r.below(DAY as u64) as i128;
+        let step = match r.below(6) {
+            0 => 1,
+            1 => r.below(1000) as i128 + 1,
+            2 => SEC,
+            3 => DAY,
+            4 => r.below(DAY as u64) as i128 + 1,
+            _ => SEC * (r.below(86400) as i128 + 1),
+        };
+        let count = r.below(cap as u64) as i128;
+        let span = match r.below(3) {
+            0 => count * step,
+            1 => count * step + r.below(step as u64) as i128,
+            _ => count * step + step / 2,
+        }
+        .max(0);
+        writeln!(out, "series_dyn {} {}:{} {} {} {} {}", r.below(2), dstr(start), a, dstr(span), b, dstr(step), cap + 5).unwrap();
     }
     for k in 0..(n / 20).max(1) {
         // every 10th series starts in ET or TDB (end in the same scale: the items are plain arithmetic on the elapsed time)
@@ -1122,6 +1165,22 @@ pub fn exec(op: &str, a: &[&str]) -> Option<String> {
             assert_eq!(Some(x.cmp(&y)), x.partial_cmp(&y));
             Some(format!("ok {} {} {} {} {} {}", ord2s(x.cmp(&y)), (x == y) as u8, ord2s(y.cmp(&x)), (y == x) as u8, (x < y) as u8, (x > y) as u8))
         }
+        "eminmax_dyn" => {
+            // (inherent min, Ord::min, inherent max, Ord::max, <=, >=, !=)
+            let (x, y) = (s2e(a[0]), s2e(a[1]));
+            Some(format!(
+                "ok {} {} {} {} {} {} {}",
+                e2s(Epoch::min(&x, y)), e2s(Ord::min(x, y)), e2s(Epoch::max(&x, y)), e2s(Ord::max(x, y)),
+                (x <= y) as u8, (x >= y) as u8, (x != y) as u8
+            ))
+        }
+        "esort_dyn" => {
+            // (sorted triple, half-open range x..z contains y, inclusive range x..=z contains y)
+            let (x, y, z) = (s2e(a[0]), s2e(a[1]), s2e(a[2]));
+            let mut v = vec![x, y, z];
+            v.sort();
+            Some(format!("ok {} {} {} {} {}", e2s(v[0]), e2s(v[1]), e2s(v[2]), ((x..z).contains(&y)) as u8, ((x..=z).contains(&y)) as u8))
+        }
         "ecmpconv" => {
             // (cmp, eq, reverse cmp, reverse eq, cmp with left converted, cmp with right converted, range contains)
             let (x, y, ts) = (s2e(a[0]), s2e(a[1]), s2ts(a[2]));
@@ -1163,7 +1222,7 @@ pub fn exec(op: &str, a: &[&str]) -> Option<String> {
             }
             Some(format!("ok {} {} {}", count, last.map(e2s).unwrap_or("-".to_string()), b2s(ordered)))
         }
-        "series" => {
+        "series" | "series_dyn" => {
             let incl = a[0] == "1";
             let start = s2e(a[1]);
             let span = s2d(a[2]);
@@ -1218,7 +1277,7 @@ pub fn exec(op: &str, a: &[&str]) -> Option<String> {
                 b2s(same_scale),
                 after,
                 sum
-            ))
+            ) + &(if op == "series_dyn" { format!(" {}", e2s(start.to_time_scale(end.time_scale))) } else { String::new() }))
         }
         // ---- C16
         "weekday" => Some(format!("ok {}", wd2i(s2e(a[0]).weekday()))),
